@@ -21,7 +21,10 @@ ExclFor(n) == LET b == n.ip IN
      << [ip |-> <<b[1], b[2], b[3], 128>>, len |-> 25], [ip |-> <<b[1], b[2], b[3], 192>>, len |-> 26], [ip |-> <<1, 2, 3, 4>>, len |-> 32] >>,
      << [ip |-> <<b[1], b[2], 0, 0>>, len |-> 16] >>,                                         \* covers the whole target
      << [ip |-> <<203, 0, 113, 0>>, len |-> 24] >> }                                          \* unrelated
+\* whole-space port ranges (port 0 is a legal bound) on a single host
+BigRanges == { <<R(0, 65535)>>, <<R(0, 0), R(0, 1)>>, <<R(1, 65535)>>, <<R(32767, 32769), R(0, 0)>> }
 Scen == UNION {{[net |-> n, ranges |-> r, exclude |-> e] : r \in RangeLists, e \in ExclFor(n)} : n \in Nets}
+        \cup {[net |-> [ip |-> <<10, 77, 3, 77>>, len |-> 32], ranges |-> r, exclude |-> <<>>] : r \in BigRanges}
 ASSUME PrintT(<<"scenarios", Cardinality(Scen)>>)
 ASSUME LET S == SetToSeq(Scen) IN ndJsonSerialize(IOEnv.VF_OUT, S)
 VARIABLE x
